@@ -71,7 +71,9 @@ def judge(case, out, answers):
                 "tags": tags + ["run-error"]}
     mr, ms, mres, mdeps = answers[0]
     diff = []
-    if mdeps != out["dep"]:
+    if out["dep"] == "unavailable":
+        tags = tags + ["internal:departures-unavailable"]
+    elif mdeps != out["dep"]:
         diff.append("departure rankings (ids of the dataset): model %s impl %s" % (mdeps, out["dep"]))
     if common.canon_list(mr) != common.canon_list(out["rankings"]):
         diff.append("consensus: model %s impl %s" % (common.canon_list(mr), common.canon_list(out["rankings"])))
